@@ -109,8 +109,14 @@ def _run_native(c, case_id, case, cfg, out):
         c.body(H, case)
     except PathInfeasible:
         pass
+    except Exception as e:  # noqa  an exception escaping from the code under test
+        tb = "".join(traceback.format_exception(type(e), e, e.__traceback__))[-1500:]
+        a = H.agg.setdefault("no_unexpected_exception", [0, 0, None])
+        a[1] += 1
+        a[2] = {"exception": f"{type(e).__name__}: {e}", "traceback": tb}
     finally:
         _reset_globals()
+    H.agg.setdefault("no_unexpected_exception", [1, 0, None])
     out["paths"] = 1
     out["path_status"] = {"ok": 1}
     out["covers"] = H.covers
